@@ -13,6 +13,8 @@ MARK = '￿'
 def compare(impl, m):
     """returns None (agree), 'oom' (outside the model) or a description of the difference"""
     mres = m['result']
+    if impl.get('max_level', 0) > 40:
+        return 'oom'       # runaway template recursion: the outcome depends on CPython's C stack depth
     if mres.get('oom'):
         return 'model out of fuel'
     if 'ok' in mres:
